@@ -15,6 +15,7 @@ import (
 var commands = map[string]func(args []string) *rep.Report{
 	"c17": c17.Run,
 	"c06": pc.Run,
+	"c07": pc.RunReaders,
 }
 
 func main() {
